@@ -12,7 +12,7 @@ from oracle import geom
 
 RULE = ("Generated: Circle, Ellipse (a<b, a=b, a>b, any centre), ConvexPolygon (regular and irregular, 3..30 vertices, rectangles "
         "with exactly horizontal/vertical edges, in-plane rotation incl. angles within 1e-9..1e-3 of the axes, offset, scale "
-        "10^U(-3,3)), ConvexSpheropolygon (same cores x r in {0} U 10^U(-2,1)*size), all in the xy-plane; theta arrays of sizes "
+        "10^U(-9,6)), ConvexSpheropolygon (same cores x r in {0} U 10^U(-2,1)*size), all in the xy-plane; theta arrays of sizes "
         "1..500: uniform in [-4pi,4pi], exact vertex directions, multiples of pi/4, given as float64 arrays, int arrays or lists. "
         "Oracle: the point centre + d(cos,sin) must lie on the boundary: closed form for circle/ellipse, ray/edge intersection "
         "from the exact centroid for polygons, bisection on the exact distance to the core for spheropolygons (tolerance 1e-9*size); "
@@ -52,7 +52,7 @@ def _polycase(draw, sphero):
     n = draw(st.integers(3, 30))
     rot = draw(st.sampled_from(["none", "free", "near_axis", "quarter"]))
     c = {"kind": kind, "n": n, "noise": draw(noise(n + 2)), "rot": rot, "ang": draw(f(0, 2 * math.pi)), "eps": draw(f(-9, -3)),
-         "off": [draw(f(-5, 5)), draw(f(-5, 5))] if draw(st.booleans()) else [0.0, 0.0], "logs": draw(f(-3, 3)) if draw(st.booleans()) else 0.0,
+         "off": [draw(f(-5, 5)), draw(f(-5, 5))] if draw(st.booleans()) else [0.0, 0.0], "logs": draw(st.sampled_from([k / 2.0 for k in range(-18, 13)])) if draw(st.booleans()) else 0.0,
          "rect": [draw(f(-1, 1)), draw(f(-1, 1))], "angles": draw(_angles()), "perm": draw(noise(30))}
     if sphero:
         c["logr"] = None if draw(st.integers(0, 7)) == 0 else draw(f(-2, 1))
